@@ -24,16 +24,31 @@ PROP = dict(
           "and a generated stream with canonical-form faults: every Decode variant accepts iff the "
           "independent reference parser accepts and each known value fits its codec; on accept "
           "decode-then-encode reproduces the input. "
+          "record lengths (TestVerifC10RecordLengths): in a generated message value of every type with "
+          "an extension (optional typed records populated by the generators or the harness) the start p "
+          "of the TLV extension is located behaviourally (smallest prefix that decodes, re-encodes "
+          "exactly and behind which a probe record is taken for the extension; cross-checked with the "
+          "reference parser and the suffix heuristic), then ONE record (T, value) is regrouped so that "
+          "the stream stays canonical for the reference parser while its declared length L changes "
+          "(value ++ a whole new odd record; value[:L] followed by a new record occupying exactly the "
+          "other bytes; one byte more/less; two off-by-one shapes whose follower is crafted for a "
+          "decoder one byte out of step; followers dropped to make room): if ReadMessage accepts, the "
+          "re-encoding must keep the bytes in front of p and carry record T with exactly L bytes equal "
+          "to the input's (the decoder consumed exactly what was declared); without a lie the message "
+          "must decode and reproduce itself. "
           "Non-trivial = (bytes tests) input accepted AND different from a generator-produced "
           "encoding; (TLV tests) accepted with >= 2 records incl. a known one, or rejected for a "
           "canonical-form reason (non-minimal, order, too large, codec length) rather than plain "
           "truncation; (value tests) every generated message with a body; (size/alloc tests) every "
-          "case. Distinct = distinct input bytes."),
+          "case; (record lengths) a lying length on a record the message gives a meaning to (deleting "
+          "it changes the decoded value or makes decoding fail) - rejection and exact consumption are "
+          "both verdicts. Distinct = distinct input bytes."),
     assumptions=[
         "value equivalence is deep equality with nil==empty slices/maps and net.Addr compared by String() (the relaxations lnd's own Fuzz* harnesses document); raw ExtraOpaqueData caches are decided by the byte-level fixpoint instead",
         "the allocation cap (24 MiB per decode of <= 65535 bytes; observed maximum 4.9 MiB = make([]Sig, 65535)) is a calibrated constant, not derived from the statement's '65 KB'",
         "the non-P2P tlv Decode is a trusted-input API and is only fed declared lengths <= 1 MiB (or >= 2^63 on the discard path)",
         "structure-aware mutations locate the TLV extension of a message by a suffix heuristic (smallest offset whose suffix is a canonical stream); it only aims mutations, it is not an oracle",
+        "record lengths: the extension start is the smallest prefix that decodes, re-encodes exactly and after which an appended unknown odd record is accepted without changing any other field; messages without an ExtraOpaqueData field (ping, pong, error, warning, custom, onion_message) have no extension; records that open/accept_channel always emit (upfront_shutdown_script, type 0) lie in front of that prefix and are not regrouped; when a typed record is accepted with another length and then not re-emitted at all no verdict is given",
         "maxDecodedShortChanIDs (100000) is not reachable within the 65535-byte wire bound with any zlib stream the harness can build (Go's encoder tops out at ~33k ids), so its removal is not observable through ReadMessage",
     ],
     jobs=dict(
@@ -47,6 +62,7 @@ PROP = dict(
                 ["TestVerifC10OnionFailure", "TestVerifC10FailurePacket"], 6000, shards=1),
             job("lnwire", "^TestVerifC10(ExtraDataTLV|CustomRecords)$",
                 ["TestVerifC10ExtraDataTLV", "TestVerifC10CustomRecords"], 8000, shards=1),
+            job("lnwire", "^TestVerifC10RecordLengths$", ["TestVerifC10RecordLengths"], 20000, shards=4),
             job(TLV, "^TestVerifC10TLVStream$", ["TestVerifC10TLVStream"], 50000, shards=2),
             job(TLV, "^TestVerifC10(VarInt|Truncated)$", ["TestVerifC10VarInt", "TestVerifC10Truncated"], 30000, shards=1),
         ],
@@ -60,6 +76,7 @@ PROP = dict(
                 ["TestVerifC10OnionFailure", "TestVerifC10FailurePacket"], 60000, shards=1, timeout=900),
             job("lnwire", "^TestVerifC10(ExtraDataTLV|CustomRecords)$",
                 ["TestVerifC10ExtraDataTLV", "TestVerifC10CustomRecords"], 80000, shards=1, timeout=900),
+            job("lnwire", "^TestVerifC10RecordLengths$", ["TestVerifC10RecordLengths"], 150000, shards=4, timeout=900),
             job(TLV, "^TestVerifC10TLVStream$", ["TestVerifC10TLVStream"], 150000, shards=3, timeout=900),
             job(TLV, "^TestVerifC10(VarInt|Truncated)$", ["TestVerifC10VarInt", "TestVerifC10Truncated"], 300000, shards=1, timeout=900),
             job("lnwire", "^FuzzVerifC10Message$", [], 0, fuzz="^FuzzVerifC10Message$", fuzztime="90s", parallel=4, timeout=900),
